@@ -153,26 +153,27 @@ def generate_kou_jump(
             (torch.zeros(n_paths, n_steps - 1, 1).to(log_jump), log_jump), dim=-1
         )
 
-        exp_jump_ind = torch.exp(log_jump)
-
         # filter out jump movements that did not occur in dt time
         indices_expanded = n_jumps[..., None]
         k_range = torch.arange(max_jumps + 1).to(returns)
         mask = k_range > indices_expanded
-        # exp(0) as to no jump after n_jump
-        exp_jump_ind[mask] = 1.0
+        # log(1) = 0 as to no jump after n_jump
+        log_jump[mask] = 0.0
 
-        # aggregate jumps in time dt--> multiplication of exponent
-        exp_jump = torch.prod(exp_jump_ind, dim=-1)
+        # aggregate jumps in time dt--> sum of log jumps
+        log_jump_step = torch.sum(log_jump, dim=-1)
 
-        # no jump at time 0--> exp(0.0)=1.0
-        exp_jump = torch.cat((torch.ones(n_paths, 1).to(exp_jump), exp_jump), dim=1)
+        # no jump at time 0--> log(1.0)=0.0
+        log_jump_step = torch.cat(
+            (torch.zeros(n_paths, 1).to(log_jump_step), log_jump_step), dim=1
+        )
 
     else:
-        exp_jump = torch.ones(n_paths, 1).to(returns)
+        log_jump_step = torch.zeros(n_paths, 1).to(returns)
 
-    # aggregate jumps upto time t
-    exp_jump_agg = torch.cumprod(exp_jump, dim=-1)
+    # aggregate jumps upto time t (in log space: the product of the jump factors
+    # and the compensating drift over- and underflow separately on long horizons)
+    log_jump_agg = torch.cumsum(log_jump_step, dim=-1)
 
     # jump correction for drift: see the paper
     m = (
@@ -183,10 +184,12 @@ def generate_kou_jump(
 
     prices = (
         torch.exp(
-            (mu - jump_per_year * m) * t + returns.cumsum(1) - (sigma ** 2) * t / 2
+            (mu - jump_per_year * m) * t
+            + returns.cumsum(1)
+            - (sigma ** 2) * t / 2
+            + log_jump_agg
         )
         * init_value.view(-1, 1)
-        * exp_jump_agg
     )
 
     return prices
